@@ -529,6 +529,10 @@ def check(rep, tier, seed, driver):
     import py2v_store
     py2v_store.report(rep)
     rng = random.Random(seed)
+    _dd = au.dict_dtype_stream(rep, random.Random(seed + 77), 40 if tier == "quick" else 400, "reject")
+    if _dd:
+        rep.violation("dict-dtype archive: " + _dd[0], {"kind": "property", "broken": "C11 under the dict form of dtype (objective and measures in different float types)",
+                                                     "case": _dd[1]}, True, {"kind": "dict-dtype"})
     n = 400 if tier == "quick" else 8000
     rep.rule = ("fault injection: a valid random prefix (reachable state), then 1-3 malformed calls drawn from the catalogue {add, add_single, "
                 "retrieve, retrieve_single, index_of, index_of_single} x {wrong rank / trailing shape / length of solution, objective, measures; "
